@@ -106,83 +106,53 @@ example : goodPrefix ⟨.original, Tables.fieldSafePrefix⟩ = true ∧
   simp at hx
   rcases hx with rfl | rfl | rfl | rfl <;> decide +kernel
 
-/-! ## keywords -/
+/-! ## keywords
+
+"Keyword" = hard keyword: `keyword.kwlist` of the interpreter that runs xsdata (extracted into
+`Tables.kwlist`). The soft keywords (`match`, `case`, `type`, `_`; `Tables.softkwlist`) are
+ordinary identifiers everywhere a class, field, module or package name is written, so they are
+outside the property (`soft_keywords_are_identifiers`). -/
 
 def NeverKeyword (e : Env) (u : UEnv) (cv : Conv) : Prop :=
   ∀ name r, safeName e u cv name = .ok r → Tables.kwlist.contains r = false
 
-/-- `await` is a hard keyword that `stop_words` does not list: the field (and module,
-package) convention returns it unchanged. -/
-theorem field_name_can_be_keyword : ¬ NeverKeyword Env.ascii UEnv.ascii fieldConv := by
-  intro h
-  have := h "await".toList "await".toList (by decide +kernel)
-  revert this
-  decide +kernel
+/-- **table fact the keyword theorem rests on**: every hard keyword of the running interpreter
+is listed in `text.stop_words`. Re-checked against the regenerated tables on every run: drop a
+keyword from `stop_words` (or run under an interpreter with a new keyword) and this breaks. -/
+theorem kwlist_subset_stop_words :
+    Tables.kwlist.all (fun k => Tables.stopWords.contains k) = true := by decide +kernel
 
-/-- the only keyword any convention with a good prefix can return is `await`. -/
-theorem safe_name_not_keyword_partial (e : Env) (u : UEnv) (cv : Conv) (hg : goodPrefix cv = true)
-    (name r : Str) (h : safeName e u cv name = .ok r) (hne : r ≠ "await".toList) :
-    Tables.kwlist.contains r = false := by
+/-- **safe_name never returns a Python keyword** — every naming case, every good prefix,
+every name (all of Unicode), every Unicode environment. -/
+theorem safe_name_never_keyword (e : Env) (u : UEnv) (cv : Conv) (hg : goodPrefix cv = true) :
+    NeverKeyword e u cv := by
+  intro name r h
   have hnr := safe_name_not_reserved e u cv hg name r h
-  have hall : Tables.kwlist.all (fun k => Tables.stopWords.contains k || k == "await".toList) = true := by
-    decide +kernel
   cases hk : Tables.kwlist.contains r
   · rfl
   · exfalso
     have hmem : r ∈ Tables.kwlist := by simpa using hk
-    have := (List.all_eq_true.1 hall) r hmem
+    have := (List.all_eq_true.1 kwlist_subset_stop_words) r hmem
     unfold isReserved at hnr
-    simp at this
-    rcases this with h1 | h1
-    · have : Tables.stopWords.contains r = true := by simpa using h1
-      rw [hnr] at this; cases this
-    · exact hne h1
+    rw [hnr] at this
+    cases this
 
-example : safeName Env.ascii UEnv.ascii fieldConv "class".toList = .ok "class_value".toList ∧
-    "class_value".toList ≠ "await".toList := by decide +kernel
+example : goodPrefix fieldConv = true ∧
+    safeName Env.ascii UEnv.ascii fieldConv "await".toList = .ok "await_value".toList ∧
+    safeName Env.ascii UEnv.ascii moduleConv "lambda".toList = .ok "lambda_mod".toList := by
+  decide +kernel
 
-/-- class names (pascalCase) and constants (screamingSnakeCase) are never keywords:
-their first character is upper case. -/
-theorem class_and_constant_names_never_keyword (e : Env) (u : UEnv) (cv : Conv)
-    (hg : goodPrefix cv = true)
-    (hc : cv.case = .pascal ∨ cv.case = .screamingSnake ∨ cv.case = .mixedPascal) :
-    NeverKeyword e u cv := by
-  intro name r h
-  apply safe_name_not_keyword_partial e u cv hg name r h
-  intro hr
-  subst hr
-  obtain ⟨n, r', hD, _, hr, hf, _⟩ := run_total e u cv hg name
-  have := fuel_mono' e u cv r' 3 61 name hf
-  unfold safeName defaultFuel at h
-  rw [this] at h
-  cases h
-  obtain ⟨x, w1, rest, hws, hx⟩ := words_head n hD.2
-  rcases hc with hc | hc | hc <;> rw [hc] at hr
-  · simp only [applyCase, pascalCase, hws, Option.some.injEq] at hr
-    rw [List.map_cons, List.flatten_cons, titleA_cons_alpha x w1 hx] at hr
-    have h0 : upperA x = 'a' := by simpa using congrArg List.head? hr
-    revert h0 hx
-    by_cases hc128 : x.toNat < 128
-    · exact ascii_cases (fun x => isAsciiAlpha x = true → upperA x = 'a' → False) x hc128 (by decide +kernel)
-    · rw [upperA_of_ge x hc128]; intro _ h0; subst h0; exact absurd (by decide) hc128
-  · obtain ⟨t, ht⟩ := join_cons_head ['_'] (lowerA x) (w1.map lowerA) (rest.map (·.map lowerA))
-    have hs : snakeCase n = lowerA x :: t := by simpa [snakeCase, hws] using ht
-    simp only [applyCase, screamingSnakeCase, hs, List.map_cons, Option.some.injEq] at hr
-    have h0 : upperA (lowerA x) = 'a' := by simpa using congrArg List.head? hr
-    revert h0 hx
-    by_cases hc128 : x.toNat < 128
-    · exact ascii_cases (fun x => isAsciiAlpha x = true → upperA (lowerA x) = 'a' → False) x hc128
-        (by decide +kernel)
-    · rw [lowerA_of_ge x hc128, upperA_of_ge x hc128]; intro _ h0; subst h0; exact absurd (by decide) hc128
-  · have hmix : mixedCase n = x :: (w1 ++ rest.flatten) := by simp [mixedCase, hws]
-    simp only [applyCase, mixedPascalCase, capitalizeA, hmix, Option.some.injEq] at hr
-    have h0 : upperA x = 'a' := by simpa using congrArg List.head? hr
-    revert h0 hx
-    by_cases hc128 : x.toNat < 128
-    · exact ascii_cases (fun x => isAsciiAlpha x = true → upperA x = 'a' → False) x hc128 (by decide +kernel)
-    · rw [upperA_of_ge x hc128]; intro _ h0; subst h0; exact absurd (by decide) hc128
-
-example : goodPrefix classConv = true ∧ classConv.case = .pascal := by decide +kernel
+/-- soft keywords are valid identifiers (for every Unicode environment they are ASCII), which is
+why the property does not ask for them to be avoided -/
+theorem soft_keywords_are_identifiers (u : UEnv) :
+    Tables.softkwlist.all (fun k => u.isIdentifier k) = true := by
+  have h : Tables.softkwlist.all (fun k => headAlphaOrUnderscore k && okChars k) = true := by
+    decide +kernel
+  rw [List.all_eq_true] at h ⊢
+  intro k hk
+  have := h k hk
+  simp only [Bool.and_eq_true] at this
+  exact isIdentifier_of_shape' u k this.1 this.2
 
 /-- a safe prefix without a leading letter is outside `goodPrefix`; the real function then
 recurses until the interpreter gives up (the model: until the fuel is gone). -/
